@@ -598,6 +598,20 @@ def double_flat_core():
     return out
 
 
+
+def frac_follow_core():
+    """Deterministic core: the rank written with an integer stride is the one that is partitioned, and the other input's rank follows it
+    through the fractional coefficient (Z[m] = A[2 * m] * B[m], K: [...], M: [follow(K)], m = k / 2)."""
+    out = []
+    for a in (2, 4):
+        for d in ("nway_shape(2)", "nway_shape(3)", "uniform_shape(%d)" % (2 * a), "nway_shape(2), uniform_shape(%d)" % a):
+            nlev = d.count("(")
+            for lo in ([["M%d" % i for i in range(nlev, -1, -1)]] + ([None] if nlev == 1 else [])):
+                y = mk_yaml({"A": ["K"], "B": ["M"], "Z": ["M"]}, ["Z[m] = A[%d*m] * B[m]" % a], part={"Z": {"K": [d], "M": ["follow(K)"]}}, lo={"Z": lo} if lo else None)
+                out.append({"yaml": y, "configs": [{"M": M, "K": a * (M - 1) + 1} for M in (3, 5)], "family": "affine-frac-follow", "key": y, "coeffs": (a, 0), "cap": 40})
+    return out
+
+
 def occ_core():
     """Fixed core for occupancy partitioning: two levels with the same and with different leaders, alone and beneath a shape split."""
     out = []
